@@ -207,8 +207,13 @@ def run(ctx):
             uv.append(v)
     fresh, known = split_known("C19", uv, matcher)
     tl_diffs, tl_n = tolist_correspondence(r, 300 if ctx.tier == "quick" else 3000)
+    # the whole pipeline of this property — build, read back, render, parse, load, read back — real code against the composed Lean models
+    import corr_readback
+    rb_diffs, rb_n, rb_classes = corr_readback.run(rng("c19-roundtrip"), 1500 if ctx.tier == "quick" else 25000)
+    tl_diffs = tl_diffs + rb_diffs
+    tl_n += rb_n
     return {"evaluations": evals + tl_n, "distinct_nontrivial": nontriv, "rule": RULE, "samples": samples,
-            "suites": {"factory": {"definitions": n}, "to_list": {"evaluations": tl_n}}, "diffs": tl_diffs, "violations": fresh, "known": known}
+            "suites": {"factory": {"definitions": n}, "to_list": {"evaluations": tl_n - rb_n}, "factory-roundtrip": {"definitions": rb_n, "outcomes": rb_classes}}, "diffs": tl_diffs, "violations": fresh, "known": known}
 
 
 def replay(ctx, payload):
